@@ -93,13 +93,36 @@ type trKernel struct {
 	// Lines, when present, is the file that is written instead of the
 	// serialisation of Header/Blocks (hostile stream).
 	Lines []trLine `json:"lines,omitempty"`
-	Tag   string   `json:"tag,omitempty"`
+	// Layout, when present (and Lines absent), selects how Header/Blocks are
+	// laid out in the file (markers, blank and comment lines); the kernel is
+	// still a serialised structure and the full monitor applies.
+	Layout *trLayout `json:"layout,omitempty"`
+	Tag    string    `json:"tag,omitempty"`
 	// Group > 0: consecutive cases with the same Group are the kernel files of
 	// ONE trace directory (kernel-1..kernel-GSize with Memcpy lines in
 	// between), read one after another by one TraceReader in this process.
 	Group int `json:"group,omitempty"`
 	GPos  int `json:"gpos,omitempty"`
 	GSize int `json:"gsize,omitempty"`
+}
+
+// trLayout: where the optional lines of the format go.  Patterns are cycled
+// (by block index, running warp counter or running instruction counter); an
+// empty pattern means 0.  Comment lines are only put where the reader skips
+// to a keyword: before a `thread block` line, between `warp =` and `insts =`,
+// after a block's last warp and at the end of the file.
+type trLayout struct {
+	Format       bool  `json:"format,omitempty"`    // `#traces format ...` line after the header
+	Begin        bool  `json:"begin,omitempty"`     // #BEGIN_TB before each thread block line
+	End          bool  `json:"end,omitempty"`       // #END_TB after each block's last warp
+	HdrBlanks    int   `json:"hdrblanks,omitempty"` // blank lines right after the header lines
+	PreTb        []int `json:"pretb,omitempty"`     // blanks just before the thread block line
+	AfterTb      []int `json:"aftertb,omitempty"`   // blanks after the thread block line
+	WarpComments []int `json:"warpcomments,omitempty"`
+	InstGaps     []int `json:"instgaps,omitempty"`  // blanks before each instruction line
+	AfterWarp    []int `json:"afterwarp,omitempty"` // blanks after a warp's instructions
+	PostTb       []int `json:"posttb,omitempty"`    // comment lines after a block's last warp
+	Tail         int   `json:"tail,omitempty"`      // comment lines at the end of the file
 }
 
 // ---------------------------------------------------------------- observation
@@ -243,6 +266,70 @@ func trKernelLines(k *trKernel) []trLine {
 		ls = append(ls, trLine{T: "other", Toks: []string{"#END_TB"}}, trLine{T: "blank"})
 	}
 	return ls
+}
+
+func trCyc(p []int, i int) int {
+	if len(p) == 0 {
+		return 0
+	}
+	return p[i%len(p)]
+}
+
+func trRep(ls []trLine, n int, l trLine) []trLine {
+	for i := 0; i < n; i++ {
+		ls = append(ls, l)
+	}
+	return ls
+}
+
+// trLayoutLines: the lines of the kernel in the given layout.
+func trLayoutLines(k *trKernel, lay *trLayout) []trLine {
+	blank := trLine{T: "blank"}
+	comment := trLine{T: "other", Toks: []string{"#", "c"}}
+	ls := trKernelLines(&trKernel{Header: k.Header})[:13]
+	ls = trRep(ls[:13:13], lay.HdrBlanks, blank)
+	if lay.Format {
+		ls = append(ls, trLine{T: "other", Toks: strings.Fields("#traces format = [line_num] PC mask dest_num [reg_dests] opcode src_num [reg_srcs] mem_width [adrrescompress?] [mem_addresses] immediate")})
+	}
+	wc, ic := 0, 0
+	for bi := range k.Blocks {
+		b := &k.Blocks[bi]
+		if lay.Begin {
+			ls = append(ls, trLine{T: "other", Toks: []string{"#BEGIN_TB"}})
+		}
+		ls = trRep(ls, trCyc(lay.PreTb, bi), blank)
+		ls = append(ls, trLine{T: "tb", N: b.ID})
+		ls = trRep(ls, trCyc(lay.AfterTb, bi), blank)
+		for wi := range b.Warps {
+			w := &b.Warps[wi]
+			ls = append(ls, trLine{T: "warp", N: [3]int64{w.ID}})
+			ls = trRep(ls, trCyc(lay.WarpComments, wc), comment)
+			ls = append(ls, trLine{T: "insts", N: [3]int64{int64(len(w.Insts))}})
+			for ii := range w.Insts {
+				ls = trRep(ls, trCyc(lay.InstGaps, ic), blank)
+				ls = append(ls, trLine{T: "inst", Toks: trInstToks(&w.Insts[ii])})
+				ic++
+			}
+			ls = trRep(ls, trCyc(lay.AfterWarp, wc), blank)
+			wc++
+		}
+		if lay.End {
+			ls = append(ls, trLine{T: "other", Toks: []string{"#END_TB"}})
+		}
+		ls = trRep(ls, trCyc(lay.PostTb, bi), comment)
+	}
+	return trRep(ls, lay.Tail, comment)
+}
+
+// trFileLines: the lines written for the kernel of a case.
+func trFileLines(k *trKernel) []trLine {
+	if k.Lines != nil {
+		return k.Lines
+	}
+	if k.Layout != nil {
+		return trLayoutLines(k, k.Layout)
+	}
+	return trKernelLines(k)
 }
 
 func trValText(l *trLine) string {
@@ -427,10 +514,11 @@ func trCoqObs(p *trParsed, crash bool) string {
 
 func trCoqCase(c *trCase) string {
 	obs := trCoqObs(c.Parsed, c.Crash)
-	if c.Kernel.Lines != nil {
-		ls := make([]string, len(c.Kernel.Lines))
-		for i := range c.Kernel.Lines {
-			ls[i] = trCoqLine(&c.Kernel.Lines[i])
+	if c.Kernel.Lines != nil || c.Kernel.Layout != nil {
+		fl := trFileLines(&c.Kernel)
+		ls := make([]string, len(fl))
+		for i := range fl {
+			ls[i] = trCoqLine(&fl[i])
 		}
 		return fmt.Sprintf("CL [%s]\n %s", strings.Join(ls, ";\n "), obs)
 	}
@@ -518,10 +606,7 @@ func trReadBack(t *tracereader.KernelTrace) *trParsed {
 // trRun writes the file of the case, runs the real reader on it and fills in
 // the observation.
 func trRun(c *trCase, tmp string, idx int) {
-	lines := c.Kernel.Lines
-	if lines == nil {
-		lines = trKernelLines(&c.Kernel)
-	}
+	lines := trFileLines(&c.Kernel)
 	dir := filepath.Join(tmp, fmt.Sprintf("case%d", idx))
 	if err := os.MkdirAll(dir, 0o755); err != nil {
 		panic(err)
@@ -585,10 +670,7 @@ func trRunGroup(cs []*trCase, tmp string, idx int) {
 	var list strings.Builder
 	list.WriteString("MemcpyHtoD,0x00007fb0fc400000,200000\n")
 	for j, c := range cs {
-		lines := c.Kernel.Lines
-		if lines == nil {
-			lines = trKernelLines(&c.Kernel)
-		}
+		lines := trFileLines(&c.Kernel)
 		var sb strings.Builder
 		for i := range lines {
 			sb.WriteString(trLineText(&lines[i]))
@@ -1032,6 +1114,30 @@ func trGenCase(rng *vh.Rng) trCase {
 	return trCase{Kernel: k}
 }
 
+func trPattern(rng *vh.Rng) []int {
+	p := make([]int, 1+rng.Intn(3))
+	for i := range p {
+		p[i] = rng.Intn(4)
+	}
+	return p
+}
+
+// trGenLayouts: the layouts in which every kernel of the valid stream is
+// written in addition to the default one (tag, layout).
+func trGenLayouts(rng *vh.Rng) []trLayout {
+	accel := trLayout{Format: true, Begin: true, End: true, HdrBlanks: 1, PreTb: []int{1}, AfterTb: []int{1},
+		AfterWarp: []int{1}}
+	compact := trLayout{}
+	blanks := trLayout{HdrBlanks: rng.Intn(4), PreTb: trPattern(rng), AfterTb: trPattern(rng), InstGaps: trPattern(rng),
+		AfterWarp: trPattern(rng)}
+	random := trLayout{Format: rng.Bool(), Begin: rng.Bool(), End: rng.Bool(), HdrBlanks: rng.Intn(4), PreTb: trPattern(rng),
+		AfterTb: trPattern(rng), WarpComments: trPattern(rng), InstGaps: trPattern(rng), AfterWarp: trPattern(rng),
+		PostTb: trPattern(rng), Tail: rng.Intn(4)}
+	return []trLayout{accel, compact, blanks, random}
+}
+
+var trLayoutTags = []string{"layout-accel", "layout-compact", "layout-compact-blanks", "layout-random"}
+
 // ---------------------------------------------------------------- main
 
 func traceMain(args []string) int {
@@ -1064,12 +1170,29 @@ func traceMain(args []string) int {
 	} else {
 		rng := vh.NewRng(*seed)
 		gid := 0
+		nextGroup := 5
 		for len(cases) < *n {
-			if len(cases)%12 == 5 {
+			if len(cases) >= nextGroup {
+				nextGroup += 12
 				gid++
 				cases = append(cases, trGenGroup(rng.Fork(), gid)...)
-			} else {
-				cases = append(cases, trGenCase(rng.Fork()))
+				continue
+			}
+			r := rng.Fork()
+			c := trGenCase(r)
+			cases = append(cases, c)
+			if c.Kernel.Tag != "valid" || c.Kernel.Lines != nil || c.Kernel.Group != 0 {
+				continue
+			}
+			// the same kernel in the other layouts (the copies count toward n)
+			lays := trGenLayouts(r)
+			for i := range lays {
+				if len(cases) >= *n {
+					break
+				}
+				k := c.Kernel
+				k.Tag, k.Layout = trLayoutTags[i], &lays[i]
+				cases = append(cases, trCase{Kernel: k})
 			}
 		}
 	}
